@@ -181,3 +181,45 @@ def c05_adapt(ctx, case):
         i = int(np.argmax(np.abs(va - vb) / tol))
         ctx.fail("adaptive multitaper: value at common frequency %g depends on NFFT: %g (NFFT=%d) vs %g (NFFT=%d), ratio %.3g, line/sigma=%g"
                  % (i / float(nfft), va[i], nfft, vb[i], nfft * c, max(va[i], vb[i]) / max(min(va[i], vb[i]), 1e-300), case["ratio"]), sig=sig)
+
+
+# ---- sharp spectral lines (MUSIC / EV): the value *at the line* must not depend on the grid either -----------------------
+@st.composite
+def sharp_case(draw):
+    x, nfft, K, noise = draw(gen.sharp_lines(32, 96, [32, 48, 64, 96], [1e-5, 1e-6, 1e-4]))
+    nsig = K if x["complex"] else 2 * K
+    ip = nsig + draw(st.integers(2, 5))
+    if ip > x["n"] // 3:
+        ip = nsig + 2
+    return {"x": x, "nfft": nfft, "c": draw(st.sampled_from([2, 3])), "IP": ip, "NSIG": nsig, "noise": noise,
+            "row": draw(st.sampled_from(["pmusic", "pev"]))}
+
+
+@sub("C05.sharp", strategy=sharp_case(), quick=300, thorough=8000,
+     doc="pmusic / pev on high-SNR on-grid lines (noise 1e-6..1e-4): psd(NFFT)[k] == psd(c NFFT)[c k] at every common frequency, "
+         "the line itself included, within 1e-11/noise relative (unchanged code: <= 8e-14/noise over 1500 records)")
+def c05_sharp(ctx, case):
+    x = gen.realise(case["x"])
+    x = x.astype(complex) if np.iscomplexobj(x) else x.astype(float)
+    nfft, c, row = case["nfft"], case["c"], case["row"]
+    if case["IP"] > len(x) // 2:
+        ctx.exclude("order too large for the record")
+        return
+    sig = {"row": row, "clause": "sharp"}
+    ctx.sig_on_exception = sig
+    cls = getattr(spectrum, row)
+    a = np.real(np.asarray(cls(x, case["IP"], NSIG=case["NSIG"], NFFT=nfft, scale_by_freq=False).psd))
+    b = np.real(np.asarray(cls(x, case["IP"], NSIG=case["NSIG"], NFFT=nfft * c, scale_by_freq=False).psd))
+    pa, pb, ncommon = common(a, b, c)
+    ctx.cls(row, "complex" if np.iscomplexobj(x) else "real", "noise=%g" % case["noise"], "c=%d" % c)
+    ctx.nontrivial(ncommon >= 8)
+    ok = np.isfinite(pa) & np.isfinite(pb) & (pa > 0)
+    ctx.check(np.array_equal(np.isfinite(pa), np.isfinite(pb)), "%s: finiteness at common frequencies depends on NFFT" % row, sig=sig)
+    if not np.any(ok):
+        return
+    tol = 1e-11 / case["noise"]
+    e = np.abs(pa[ok] - pb[ok]) / pa[ok]
+    i = int(np.argmax(e))
+    ctx.check(float(e[i]) <= tol, "%s: value at a common frequency depends on NFFT (%d vs %d): relative difference %.3g "
+              "(allowed %.3g = 1e-11/noise, noise %g; value %.6g vs %.6g)" % (row, nfft, nfft * c, e[i], tol, case["noise"],
+                                                                           pa[ok][i], pb[ok][i]), sig=sig)
